@@ -102,17 +102,21 @@ class Node:
 
 
 def build(t, names=None):
-    """nested tuples -> root Node; leaves carry .leaf (int) and .name."""
-    if isinstance(t, tuple):
-        n = Node()
-        for c in t:
-            ch = build(c, names)
-            ch.parent = n
-            n.children.append(ch)
-        return n
-    n = Node(names[t] if names is not None else str(t))
-    n.leaf = t
-    return n
+    """nested tuples -> root Node; leaves carry .leaf (int) and .name.  Iterative."""
+    root = Node()
+    stack = [(t, root)]
+    while stack:
+        sub, n = stack.pop()
+        if isinstance(sub, tuple):
+            for c in sub:
+                ch = Node()
+                ch.parent = n
+                n.children.append(ch)
+                stack.append((c, ch))
+        else:
+            n.name = names[sub] if names is not None else str(sub)
+            n.leaf = sub
+    return root
 
 
 def postorder(root):
@@ -141,16 +145,17 @@ def preorder(root):
 
 
 def to_newick(root, lengths=True, fmt="%.17g"):
-    def rec(n):
+    """Iterative writer (deep caterpillars exceed the interpreter's C recursion limit otherwise)."""
+    text = {}
+    for n in postorder(root):
         if n.is_leaf():
             s = n.name
         else:
-            s = "(" + ",".join(rec(c) for c in n.children) + ")"
+            s = "(" + ",".join(text.pop(id(c)) for c in n.children) + ")"
         if lengths and n.parent is not None and n.length is not None:
             s += ":" + (fmt % n.length)
-        return s
-
-    return rec(root) + ";"
+        text[id(n)] = s
+    return text[id(root)] + ";"
 
 
 _tok = re.compile(r"\s*([(),;:]|[^(),;:\s]+)")
